@@ -97,3 +97,19 @@ def halo_sign(vector_axis, a, b, rev):
 
 def link_kind(side, a, b, rev):
     return ("right" if side else "left", "same" if a == b else "swapped", "reversed" if rev else "normal")
+
+
+def listed_in_order(t, seed):
+    """The same table with its faces (and the axes within each face) inserted in a seeded random order: the order in
+    which a caller happens to list the links is not part of the topology."""
+    import random
+
+    r = random.Random(seed)
+    faces = list(t)
+    r.shuffle(faces)
+    out = {}
+    for f in faces:
+        ax = list(t[f])
+        r.shuffle(ax)
+        out[f] = {a: t[f][a] for a in ax}
+    return out
